@@ -261,7 +261,9 @@ func (t *c12Tree) indexedPaths(o c12Obj) (paths []string, seg []int, lens []int)
 // directedOnce applies one directed mutation of one of three families; "" when the tree offers no site.
 func (gen *c12Gen) directedOnce(g *Rng, t *c12Tree) string {
 	switch k := g.Intn(100); {
-	case k < 3:
+	case k < 2:
+		return gen.directedCrdCycle(g, t)
+	case k < 4:
 		if d := gen.directedOpenAPILayers(g, t); d != "" {
 			return d
 		}
@@ -284,6 +286,43 @@ func (gen *c12Gen) directedOnce(g *Rng, t *c12Tree) string {
 		}
 		return gen.directedBoundary(g, t)
 	}
+}
+
+// ---------- family 6: `crds:` definitions whose $ref chain comes back to where it started ----------
+//
+// loadCrdIntoConfig follows the $ref of every property: a type that refers to itself, two types that refer to
+// each other, a longer ring; with and without the marker properties that make a definition "look like a k8s type".
+func (gen *c12Gen) directedCrdCycle(g *Rng, t *c12Tree) string {
+	var ks []*c12File
+	for _, f := range t.files {
+		if f.role == "kustomization" && len(f.docs) == 1 && f.docs[0].Kind == yaml.MappingNode {
+			ks = append(ks, f)
+		}
+	}
+	if len(ks) == 0 {
+		return ""
+	}
+	kf := ks[g.Intn(len(ks))]
+	ring := 1 + g.Intn(3)
+	name := func(i int) string { return fmt.Sprintf("github.com/x/v1.T%d", i%ring) }
+	defs := ym()
+	for i := 0; i < ring; i++ {
+		props := ym("next", ym("$ref", ys(name(i+1))))
+		if i == 0 || g.Chance(30) {
+			mapSet(props, "kind", ym("type", ys("string")))
+			mapSet(props, "apiVersion", ym("type", ys("string")))
+			mapSet(props, "metadata", ym("type", ys("string")))
+		}
+		if g.Chance(30) {
+			mapSet(props, "ref", ym("x-kubernetes-object-ref-api-version", ys("v1"), "x-kubernetes-object-ref-kind", ys("ConfigMap"), "type", ys("object")))
+		}
+		mapSet(defs, name(i), ym("Schema", ym("type", ys("object"), "properties", props)))
+	}
+	dir := kf.path[:strings.LastIndex(kf.path, "/")]
+	fn := "crdcycle.yaml"
+	t.files = append(t.files, &c12File{path: dir + "/" + fn, docs: []*yaml.Node{defs}, role: "config"})
+	listAppend(kf.docs[0], "crds", ys(fn))
+	return fmt.Sprintf("directed:crdcycle ring=%d @%s:", ring, kf.path)
 }
 
 // ---------- family 5: `openapi:` in more than one layer ----------
